@@ -203,6 +203,8 @@ def run_lane(inv, prop, tier, seed, scratch, index, env):
     procs = []
     for r_index, run in enumerate(inv["runs"]):
         for shard in range(run.get("shards", 1)):
+            if run.get("only_shards") is not None and shard not in run["only_shards"]:
+                continue
             out = os.path.join(scratch, f"{prop}-{lane}-{index}-{r_index}-{shard}.json")
             args = [run["engine"], "--tier", tier, "--seed", str(seed + shard * 1000 + r_index), "--prop", prop, "--shard", str(shard), "--shards", str(run.get("shards", 1)), "--out", out]
             for k, v in run.get("args", {}).items():
